@@ -1289,16 +1289,24 @@ Inductive xstep :=
 
 # ------------------------------------------------------------------------------------------
 # C08: loop shapes -- which failure ENDS which long-lived service loop.
-# The body of every service loop is cut into statements and walked structurally; every statement must be
-# recognised (tag [LoopShapes] otherwise).  A FALLIBLE POINT is an expression matched by one of the loop's point
-# recognisers; its DISPOSITION is read off the syntax around it:
-#     E?                                      Propagate ByQuestion        `while let Ok(..) = E {`   Propagate ByLoopCond
-#     match E { .. Err(e) => { ..; break } }  Propagate ByBreak           .. => { ..; return .. }    Propagate ByReturn
-#     match E { .. Err(e) => { ..; continue } } Handled SkipIteration     .. => log                  Handled FallThrough
-#     E.unwrap_or_else(|e| log)               Handled FallThrough         E.ok() / .is_ok() / .err() Handled Converted
-#     PAT = E  (refutable select! pattern)    Parked                      inside tokio::spawn(..)    InTask
-# As a safety net the number of `?` and of break / continue / return in the walked text must equal the number the
-# walker consumed: no recogniser with a wildcard can swallow an exit.
+# The body of every service loop is cut into statements and walked structurally.
+#   * A FALLIBLE POINT is a call recognised by the METHOD / FUNCTION name that carries its meaning (`.accept()`, `.recv_from(..)`,
+#     `.send(..)`, `.try_send(..)`, `.send_to(..)`, `SessionCodec::decode(..)`, `new_binding(..)`, the closure parameter of type
+#     NewCodec / NewOut, ...), whatever the receiver and the locals are called.  Its DISPOSITION is read off the syntax around it:
+#       E?                                      Propagate ByQuestion        `while let Ok(..) = E {`   Propagate ByLoopCond
+#       match E { .. Err(e) => { ..; break } }  Propagate ByBreak           .. => { ..; return .. }    Propagate ByReturn
+#       match E { .. Err(e) => { ..; continue } } Handled SkipIteration     .. => log                  Handled FallThrough
+#       E.unwrap_or_else(f)                     Handled FallThrough         E.ok() / .is_ok() / .err() Handled Converted
+#       PAT = E  (refutable select! pattern)    Parked                      inside spawn(..)           InTask
+#     `if let Ok(..) = E {A} else {B}`, `let Ok(..) = E else {B}` and `match E {Ok(..) => A, Err(..) => B}` are the same shape;
+#     a named local for the value of a point (`let r = E.await; match r {..}`, a select! binding, the item of a `while let`) is
+#     followed to where it is examined.
+#   * A statement with no `?`, no `.await`, no break / continue / return, no spawn / select!, no unwrap / expect / panic-family
+#     macro / process exit and no loop is INERT: whatever it calls and however its locals are named it can neither end nor block
+#     the loop, and it is skipped (functions of the same file that it calls must not panic / exit either).  `sleep(<any>).await`
+#     is a pause.  `if` / `match` on something that is not a point must have an inert condition and is walked through.
+#   * Everything else raises (tag [LoopShapes]).  As a safety net the number of `?` and of break / continue / return in the walked
+#     text must equal the number the walker consumed.
 _LS_VOCAB = """(* how a failure leaves the loop *)
 Inductive exit_kind := ByQuestion | ByReturn | ByBreak | ByLoopCond | ByPanic.
 (* how the loop's own task deals with it and goes on: `continue`, falls through after logging, turned into a value *)
@@ -1322,38 +1330,97 @@ Inductive point :=
 """
 _LS_POINTS = set(re.findall(r"\bP([A-Z]\w+)", _LS_VOCAB.split("Inductive point :=")[1]))
 
-_LS_LOGX = r"(?:error|info|debug|warn|trace)!\(.*\)"
-_LS_PURE = [
-    _LS_LOGX + r"[;,]?",
-    r"(?:tokio::)?time::sleep\((?:std::time::)?Duration::from_millis\(\d+\)\)\.await;",
-    r"let (?:mut )?\w+ = \w+\.clone\(\);",
-    r"[a-z_]\w*,?",            # a binding as the value of an arm
-    r"\(\)[;,]?",
-    r"None,?", r"Some\(\w+\),?",
-]
 _LS_SUFFIXES = [
     (r"\?", "Propagate ByQuestion"),
     (r"\.unwrap\(\)|\.expect\(.*\)", "Propagate ByPanic"),
-    (r"\.unwrap_or_else\(\|\w+\| %s\)" % _LS_LOGX, "Handled FallThrough"),
-    (r"\.ok\(\)|\.is_ok\(\)|\.err\(\)(?:\.map\(.*\))?", "Handled Converted"),
+    (r"\.unwrap_or_else\((?P<closure>.*)\)", "Handled FallThrough"),      # the closure (or the function named) must be inert
+    (r"(?:\.map_err\((?P<closure2>.*)\))?\.ok\(\)|\.is_ok\(\)|\.is_err\(\)|\.err\(\)(?:\.map\(.*\))?|\.unwrap_or_default\(\)", "Handled Converted"),
     (r"", "Handled Converted"),
 ]
 _LS_TERMINALS = [(r"continue;?", "continue"), (r"break;?", "break"), (r"return\b.*", "return"), (r"bail!\(.*\);?", "return"),
                  (r"(?:panic|unreachable|todo|unimplemented)!\(.*\);?", "panic")]
 _LS_FAIL_DISP = {None: "Handled FallThrough", "continue": "Handled SkipIteration", "break": "Propagate ByBreak",
                  "return": "Propagate ByReturn", "panic": "Propagate ByPanic"}
+# what makes a statement able to end, leave or block the loop it is in (searched in the text without its literals)
+_LS_NOT_INERT = re.compile(r"\?|\.await\b|\b(?:break|continue|return|loop|while|for)\b|\bspawn\b|\bselect!|\.unwrap\(\)|\.expect\("
+                           r"|\b(?:panic|unreachable|todo|unimplemented|bail|ensure)!|\b\w*assert\w*!|(?:process::|(?<![\.\w]))(?:exit|abort)\(")
+# what makes a (same-file, non-async-awaited) helper able to take the caller's task down
+_LS_DIVERGES = re.compile(r"\b(?:panic|unreachable|todo|unimplemented)!|\b\w*assert\w*!|(?:process::|(?<![\.\w]))(?:exit|abort)\(|\.unwrap\(\)|\.expect\(")
+_LS_SLEEP = r"(?:\w+::)*sleep\(.*\)\.await;?"        # a back-off pause on the loop's own task, however the duration is written
+_LS_SPAWN = r"(?:let (?:mut )?\w+ = )?(?:[\w\.]+\.|(?:\w+::)*)spawn\("
+_LS_SELECT = r"(?:\w+::)*select! \{"
+
+
+# ---- private copies of the text helpers (gen_exit_paths has its own; the two translators evolve independently) ----
+def _ls_strip_comments(t):
+    out, i, n_ = [], 0, len(t)
+    while i < n_:
+        c = t[i]
+        if c == '"':
+            j = i + 1
+            while j < n_ and t[j] != '"':
+                j += 2 if t[j] == "\\" else 1
+            out.append(t[i:j + 1])
+            i = j + 1
+        elif t.startswith("//", i):
+            j = t.find("\n", i)
+            i = n_ if j < 0 else j
+        elif t.startswith("/*", i):
+            j = t.find("*/", i + 2)
+            i = n_ if j < 0 else j + 2
+        else:
+            out.append(c)
+            i += 1
+    return "".join(out)
 
 
 def _ls_norm(t):
-    """_norm, and a method chain broken over several lines is one chain"""
-    return re.sub(r" \.(?=[A-Za-z_])", ".", _norm(t))
+    """comment-free, whitespace-normalised; a method chain broken over several lines is one chain; `f( a, b, )` is `f(a, b)`"""
+    t = re.sub(r"\s+", " ", _ls_strip_comments(t)).strip()
+    t = re.sub(r" \.(?=[A-Za-z_])", ".", t)
+    out, i = [], 0
+    while i < len(t):                       # rustfmt's wrapping of argument lists, outside literals
+        j = _ls_skip_literal(t, i)
+        if j != i:
+            out.append(t[i:j])
+            i = j
+            continue
+        if t[i] == "(" and t.startswith("( ", i):
+            out.append("(")
+            i += 2
+            continue
+        if t.startswith(", )", i):
+            out.append(")")
+            i += 3
+            continue
+        if t.startswith(" )", i) and out and out[-1] != "(":
+            out.append(")")
+            i += 2
+            continue
+        out.append(t[i])
+        i += 1
+    return "".join(out)
+
+
+def _ls_skip_literal(t, i):
+    if t[i] == '"':
+        j = i + 1
+        while j < len(t) and t[j] != '"':
+            j += 2 if t[j] == "\\" else 1
+        return j + 1
+    if t[i] == "'":
+        m = re.match(r"'(\\[^']+|[^\\'])'", t[i:])
+        if m:
+            return i + m.end()
+    return i
 
 
 def _ls_no_literals(t):
     out, i = [], 0
     while i < len(t):
-        j = _skip_literal(t, i)
+        j = _ls_skip_literal(t, i)
         if j != i:
+            out.append('""')
             i = j
             continue
         out.append(t[i])
@@ -1361,42 +1428,228 @@ def _ls_no_literals(t):
     return "".join(out)
 
 
-def _ls_single_loop(block, what):
-    """the one loop statement of a block: (header text, body text)"""
-    found = [st for st in _stmts(block, what) if re.match(r"(?:loop|while)\b", st)]
-    if len(found) != 1:
-        raise AnchorMissing("%s: expected exactly one `loop` / `while` statement, found %d" % (what, len(found)))
-    st = found[0]
-    k = _first_open(st, 0, "{", what)
-    e = _close_of(st, k, what)
-    if st[e + 1:].strip() not in ("", ",", ";"):
-        raise AnchorMissing("%s: text after the loop: %r" % (what, st[e + 1:][:60]))
-    return st[:k].strip(), st[k + 1:e].strip()
+def _ls_close_of(t, k, what):
+    depth, i = 0, k
+    while i < len(t):
+        j = _ls_skip_literal(t, i)
+        if j != i:
+            i = j
+            continue
+        if t[i] in "([{":
+            depth += 1
+        elif t[i] in ")]}":
+            depth -= 1
+            if depth == 0:
+                return i
+        i += 1
+    raise AnchorMissing("unbalanced brackets in %s" % what)
 
 
-def _ls_stmt_with(block, rx, what):
-    found = [st for st in _stmts(block, what) if re.match(rx, st)]
-    if len(found) != 1:
-        raise AnchorMissing("%s: expected exactly one statement starting with /%s/, found %d" % (what, rx, len(found)))
-    return found[0]
+def _ls_first_open(t, start, ch, what):
+    depth, i = 0, start
+    while i < len(t):
+        j = _ls_skip_literal(t, i)
+        if j != i:
+            i = j
+            continue
+        if t[i] == ch and depth == 0:
+            return i
+        if t[i] in "([{":
+            depth += 1
+        elif t[i] in ")]}":
+            depth -= 1
+        i += 1
+    raise AnchorMissing("no `%s` found in %s" % (ch, what))
+
+
+def _ls_item(text, header_re, what):
+    m = re.search(header_re, text)
+    if not m:
+        raise AnchorMissing("%s: header not found (%s)" % (what, header_re))
+    k = _ls_first_open(text, m.start(), "{", what)
+    e = _ls_close_of(text, k, what)
+    return _ls_norm(text[m.start():k]), _ls_norm(text[k + 1:e])
+
+
+def _ls_stmts(body, what):
+    t, out, depth, start, i = body, [], 0, 0, 0
+    while i < len(t):
+        j = _ls_skip_literal(t, i)
+        if j != i:
+            i = j
+            continue
+        c = t[i]
+        if c in "([{":
+            depth += 1
+        elif c in ")]}":
+            depth -= 1
+            if depth < 0:
+                raise AnchorMissing("unbalanced brackets in %s" % what)
+            if depth == 0 and c == "}" and re.match(r"(if|match|loop|while|for|unsafe)\b|\{|%s" % _LS_SELECT, t[start:].lstrip()) \
+                    and not re.match(r"else\b|\.|\?|;", t[i + 1:].lstrip()):
+                out.append(t[start:i + 1].strip())
+                start = i + 1
+        elif c == ";" and depth == 0:
+            out.append(t[start:i + 1].strip())
+            start = i + 1
+        i += 1
+    if t[start:].strip():
+        out.append(t[start:].strip())
+    return out
+
+
+def _ls_arms(body, what):
+    t, arms, start = body, [], 0
+    while t[start:].strip():
+        depth, i, k = 0, start, -1
+        while i < len(t):
+            j = _ls_skip_literal(t, i)
+            if j != i:
+                i = j
+                continue
+            if t[i] in "([{":
+                depth += 1
+            elif t[i] in ")]}":
+                depth -= 1
+            elif depth == 0 and t.startswith("=>", i):
+                k = i
+                break
+            i += 1
+        if k < 0:
+            raise AnchorMissing("%s: text after the last match arm: %r" % (what, t[start:][:60]))
+        pat = t[start:k].strip()
+        p = k + 2
+        while p < len(t) and t[p] == " ":
+            p += 1
+        if p < len(t) and t[p] == "{":
+            q = _ls_close_of(t, p, what)
+            expr, nxt = t[p:q + 1], q + 1
+            while nxt < len(t) and t[nxt] in " ,":
+                nxt += 1
+        else:
+            depth, i = 0, p
+            while i < len(t):
+                j = _ls_skip_literal(t, i)
+                if j != i:
+                    i = j
+                    continue
+                if t[i] in "([{":
+                    depth += 1
+                elif t[i] in ")]}":
+                    depth -= 1
+                elif t[i] == "," and depth == 0:
+                    break
+                i += 1
+            expr, nxt = t[p:i].strip(), i + 1
+        arms.append((pat, expr))
+        start = nxt
+    return arms
+
+
+def _ls_block_inner(expr):
+    expr = expr.strip()
+    return expr[1:-1].strip() if expr.startswith("{") and expr.endswith("}") and _ls_close_of(expr, 0, "a block") == len(expr) - 1 else expr
 
 
 def _ls_braced(st, start, what):
     """(text before the first top-level `{` at/after start, inside of that block, text after it)"""
-    k = _first_open(st, start, "{", what)
-    e = _close_of(st, k, what)
+    k = _ls_first_open(st, start, "{", what)
+    e = _ls_close_of(st, k, what)
     return st[start:k].strip(), st[k + 1:e].strip(), st[e + 1:].strip()
 
 
-class _LoopWalk:
-    """rec = {points: [(expr regex, Name)], pure: [stmt regex], plain_match: [(scrutinee regex, [(pattern regex, suffix)])],
-              plain_if: [(cond regex, then suffix, else suffix)], check_if: [(cond regex, Name)], calls: [(call regex, Name)],
-              select: [(future regex, Name)], arm_suffix: {Name: suffix}, loops: bool, task: rec of spawned blocks}"""
+def _ls_inert(st):
+    """no `?`, no await, no control transfer, no spawn / select!, no panicking call, no loop: whatever this statement calls
+    and however its locals are named, it can neither end nor block the loop it is in"""
+    return not _LS_NOT_INERT.search(_ls_no_literals(st))
 
-    def __init__(self, what, rec):
+
+def _ls_file_fns(text):
+    """{name: body} of every `fn` with a body in a source file (free functions and methods alike)"""
+    t, fns = _ls_strip_comments(text), {}
+    for m in re.finditer(r"\bfn (\w+)", t):
+        try:
+            k = _ls_first_open(t, m.end(), "{", "fn " + m.group(1))
+        except AnchorMissing:
+            continue
+        semi = t.find(";", m.end())
+        if 0 <= semi < k and t[m.end():semi].count("(") == t[m.end():semi].count(")") and "{" not in t[m.end():semi]:
+            continue                        # a declaration without a body
+        fns.setdefault(m.group(1), []).append(t[k:_ls_close_of(t, k, "fn " + m.group(1)) + 1])
+    return fns
+
+
+def _ls_calls_diverging(st, fns, seen=frozenset()):
+    """does the statement call a function of the same file that can panic / exit (followed through such helpers)?"""
+    for name in set(re.findall(r"\b([a-z_]\w*)\(", _ls_no_literals(st))) - seen:
+        for body in fns.get(name, []):
+            if _LS_DIVERGES.search(_ls_no_literals(body)) or _ls_calls_diverging(body, fns, seen | {name}):
+                return True
+    return False
+
+
+def _ls_loops_in(block, what):
+    """every loop statement reachable from a block through if / match / plain blocks (not through closures or spawned
+    blocks): [(header text, body text)]"""
+    found = []
+    for st in _ls_stmts(block, what):
+        s = re.sub(r"^(?:let [^=]+ = |[\w\.]+ = )", "", st)
+        if re.match(r"(?:loop|while)\b", s):
+            head, body, rest = _ls_braced(s, 0, what)
+            if rest not in ("", ",", ";"):
+                raise AnchorMissing("%s: text after a loop: %r" % (what, rest[:60]))
+            found.append((head, body))
+        elif s.startswith("match "):
+            _h, body, _r = _ls_braced(s, 6, what)
+            for (_pat, ex) in _ls_arms(body, what):
+                found += _ls_loops_in(_ls_block_inner(ex), what)
+        elif s.startswith("if "):
+            while s.startswith("if "):
+                _c, then_b, rest = _ls_braced(s, 3, what)
+                found += _ls_loops_in(then_b, what)
+                rest = rest.rstrip(";").strip()
+                s = rest[4:].strip() if rest.startswith("else") else ""
+            if s.startswith("{"):
+                found += _ls_loops_in(_ls_block_inner(s), what)
+        elif s.startswith("{"):
+            found += _ls_loops_in(_ls_block_inner(s.rstrip(";")), what)
+    return found
+
+
+def _ls_the_loop(block, what):
+    found = _ls_loops_in(block, what)
+    if len(found) != 1:
+        raise AnchorMissing("%s: expected exactly one `loop` / `while` statement, found %d" % (what, len(found)))
+    return found[0]
+
+
+def _ls_P(key, name, args=r".*", awaited=True, branch=None):
+    """a fallible point, keyed on the METHOD (key starts with `\\.`: any receiver) or FUNCTION PATH that carries the meaning;
+    args: regex the argument text must match; awaited: the point is `call(..).await`; branch: only inside that select! branch"""
+    return {"key": key, "name": name, "args": args, "awaited": awaited, "branch": branch, "method": key.startswith(r"\.")}
+
+
+def _ls_point_matches(p, expr, what):
+    m = re.match((r"[\w\.]+" if p["method"] else "") + p["key"] + r"\(", expr)
+    if not m:
+        return False
+    k = m.end() - 1
+    e = _ls_close_of(expr, k, what)
+    return expr[e + 1:] == (".await" if p["awaited"] else "") and re.fullmatch(p["args"], expr[k + 1:e]) is not None
+
+
+class _LoopWalk:
+    """rec = {points: [_ls_P], arm_ctx: [(regex searched in an arm pattern, suffix)], cond_ctx: [(regex searched in a condition,
+              then suffix, else suffix)], check_if: [(regex searched in a condition, Name)], calls: [(function path regex, Name)],
+              select: [(future regex, Name)], arm_suffix: {Name: suffix}, header_item: [(template with {item}, Name)],
+              loops: bool, task: rec of spawned blocks}"""
+
+    def __init__(self, what, rec, aliases=None):
         self.what, self.rec = what, rec
         self.points = list(rec.get("points", []))
-        self.pure = _LS_PURE + list(rec.get("pure", []))
+        self.fns = rec.get("fns", {})           # the functions of the same source file (an inert statement may call them)
+        self.aliases = dict(aliases or {})      # expression text -> {"base", "used", "kind"}: values that stand for a point
+        self.branch = None                      # the select! branch being walked
         self.nq = self.nctl = 0
         self.tasks = []            # rows of every spawned block, with the dispositions relative to that task
         self.select = None         # [(Name, refutable)]
@@ -1412,25 +1665,53 @@ class _LoopWalk:
         return nm
 
     def point(self, expr, sfx):
-        hits = sorted(set(b for (rx, b) in self.points if re.fullmatch(rx, expr)))
+        expr = expr.strip()
+        while expr.startswith("(") and _ls_close_of(expr, 0, self.what) == len(expr) - 1:
+            expr = expr[1:-1].strip()
+        if expr in self.aliases:
+            self.aliases[expr]["used"] = True
+            return (self.aliases[expr]["base"], self.name(self.aliases[expr]["base"], sfx))
+        hits = sorted(set(p["name"] for p in self.points
+                          if p["branch"] in (None, self.branch) and _ls_point_matches(p, expr, self.what)))
         if len(hits) > 1:
             self.fail("expression matches several point recognisers %r: %r" % (hits, expr))
         return (hits[0], self.name(hits[0], sfx)) if hits else None
 
+    def has_point(self, st):
+        flat = _ls_no_literals(st)
+        return any(re.search(p["key"] + r"\(", flat) for p in self.points if p["branch"] in (None, self.branch))
+
+    def examines_alias(self, st):
+        """an `if` / `match` on a local that stands for a fallible point is that point's handling, even when nothing in it can
+        leave the loop"""
+        m = re.match(r"(?:let [^=]+ = |[\w\.]+ = )?(?:match (?P<a>[a-z_]\w*) \{|if let [^=]+ = (?P<b>[a-z_]\w*) \{|if (?P<c>[a-z_]\w*)\.is_(?:ok|err)\(\) \{)", st)
+        return bool(m) and (m.group("a") or m.group("b") or m.group("c")) in self.aliases
+
+    def plain(self, text, where):
+        """a scrutinee / condition that is not a fallible point must be inert"""
+        if self.has_point(text) or not _ls_inert(text):
+            self.fail("unrecognised %s %r" % (where, text[:120]))
+
     # ---- blocks ----
     def block(self, text, sfx):
-        rows, term = [], None
-        for st in _stmts(text, self.what):
+        rows, term, before = [], None, set(self.aliases)
+        for st in _ls_stmts(text, self.what):
             if term:
                 self.fail("statement after a control transfer: %r" % st[:100])
             r, term = self.stmt(st, sfx)
             rows += r
+        for a in [a_ for a_ in self.aliases if a_ not in before]:      # locals of this block go out of scope
+            if self.aliases[a]["kind"] == "let" and not self.aliases[a]["used"]:
+                rows.append((self.name(self.aliases[a]["base"], self.aliases[a]["sfx"]), "Handled Converted"))
+            del self.aliases[a]
         return rows, term
 
     def fail_arm(self, expr, sfx):
-        rows, term = self.block(_block_inner(expr), sfx)
+        rows, term = self.block(_ls_block_inner(expr), sfx)
         if rows:
             self.fail("a failure arm contains fallible points itself: %r" % (rows,))
+        if term is None and not _ls_block_inner(expr).strip(" ;,()"):
+            return "Handled Converted"          # an empty arm: the error is dropped like `.ok()` / `let _ =` drop it
         return _LS_FAIL_DISP[term]
 
     def quiet(self, text, sfx, where):
@@ -1447,11 +1728,15 @@ class _LoopWalk:
                 if kind in ("continue", "break") or st.startswith("return"):
                     self.nctl += 1
                 return [], kind
-        if any(re.fullmatch(rx, st) for rx in self.pure):
+        if re.fullmatch(_LS_SLEEP, st) and _ls_inert(re.sub(r"\.await;?$", "", st)):
             return [], None
-        if re.match(r"(?:let \w+ = )?tokio::spawn\(", st):
+        if _ls_inert(st) and not self.has_point(st) and not self.examines_alias(st):
+            if _ls_calls_diverging(st, self.fns):
+                self.fail("a statement calls a function of this file that can panic or exit: %r" % st[:120])
+            return [], None
+        if re.match(_LS_SPAWN, st):
             return self.stmt_spawn(st, sfx)
-        if st.startswith("tokio::select! {"):
+        if re.match(_LS_SELECT, st):
             return self.stmt_select(st, sfx)
         if re.match(r"(?:let [^=]+ = |[\w\.]+ = )?match ", st):
             return self.stmt_match(st, sfx)
@@ -1463,10 +1748,15 @@ class _LoopWalk:
             head, body, rest = _ls_braced(st, 0, self.what)
             if rest not in ("", ";"):
                 self.fail("text after a nested loop: %r" % rest[:60])
+            before = set(self.aliases)
             rows = self.header(head, sfx)
             r, _t = self.block(body, sfx)
+            for a in [a_ for a_ in self.aliases if a_ not in before]:
+                del self.aliases[a]
             return rows + r, None
-        r = self.stmt_expr(st, sfx)
+        r = self.stmt_let_else(st, sfx)
+        if r is None:
+            r = self.stmt_expr(st, sfx)
         if r is not None:
             return r, None
         self.fail("unrecognised statement %r" % st[:160])
@@ -1474,18 +1764,48 @@ class _LoopWalk:
     def header(self, head, sfx):
         if head == "loop":
             return []
-        m = re.fullmatch(r"while let (?:Ok|Some)\(.*\) = (.+)", head)
-        p = self.point(m.group(1), sfx) if m else None
+        m = re.fullmatch(r"while let (?:Ok|Some)\((.*)\) = (.+)", head)
+        p = self.point(m.group(2), sfx) if m else None
         if not p:
             self.fail("unrecognised loop header %r" % head[:120])
+        if re.fullmatch(r"(?:mut )?[a-z_]\w*", m.group(1)):
+            item = m.group(1).split()[-1]
+            for (tmpl, base) in self.rec.get("header_item", []):
+                self.aliases[tmpl.replace("{item}", item)] = {"base": base, "used": True, "kind": "header", "sfx": sfx}
         return [(p[1], "Propagate ByLoopCond")]
+
+    def stmt_let_else(self, st, sfx):
+        core = re.sub(r"[;,]$", "", st).strip()
+        if not core.startswith("let ") or not core.endswith("}"):
+            return None
+        try:
+            k = _ls_first_open(core, 0, "{", self.what)
+        except AnchorMissing:
+            return None
+        m = re.fullmatch(r"let (?:Ok|Some)\(.*\) = (.+) else", core[:k].strip())
+        if not m or _ls_close_of(core, k, self.what) != len(core) - 1:
+            return None
+        p = self.point(m.group(1), sfx)
+        if not p:
+            return None
+        return [(p[1], self.fail_arm(core[k:], sfx))]
 
     def stmt_expr(self, st, sfx):
         core = re.sub(r"[;,]$", "", st).strip()
+        m = re.fullmatch(r"let (?:mut )?([a-z]\w*|_\w+)(?:: [^=]+)? = (.+)", core)
+        if m and self.point(m.group(2), sfx):
+            # a named local for the value of a fallible point: what happens to the point is what happens to the local
+            base = self.point(m.group(2), sfx)[0]
+            self.aliases[m.group(1)] = {"base": base, "used": False, "kind": "let", "sfx": sfx}
+            return []
         core = re.sub(r"^(?:let [^=]+ = |[\w\.]+ = )", "", core)
         for (srx, disp) in _LS_SUFFIXES:
-            mm = re.fullmatch(r"(.+?)(?:%s)" % srx, core)
-            p = self.point(mm.group(1), sfx) if mm else None
+            mm = re.fullmatch(r"(?P<e>.+?)(?:%s)" % srx, core)
+            if not mm:
+                continue
+            if any(v is not None and not _ls_inert(v) for (k_, v) in mm.groupdict().items() if k_.startswith("closure")):
+                continue
+            p = self.point(mm.group("e"), sfx)
             if p:
                 if disp == "Propagate ByQuestion":
                     self.nq += 1
@@ -1493,44 +1813,60 @@ class _LoopWalk:
         return None
 
     def stmt_spawn(self, st, sfx):
-        m = re.fullmatch(r"(?:let \w+ = )?tokio::spawn\((.*)\);?", st)
+        m = re.fullmatch(_LS_SPAWN + r"(.*)\);?", st)
         if not m:
             self.fail("unrecognised spawn statement %r" % st[:120])
         inner = m.group(1).strip()
         ma = re.match(r"async (?:move )?\{", inner)
         if ma:
             k = ma.end() - 1
-            if _close_of(inner, k, self.what) != len(inner) - 1:
-                self.fail("the async block is not the whole argument of tokio::spawn")
-            sub = _LoopWalk(self.what + " (spawned block)", self.rec.get("task", {}))
+            if _ls_close_of(inner, k, self.what) != len(inner) - 1:
+                self.fail("the async block is not the whole argument of spawn")
+            sub = _LoopWalk(self.what + " (spawned block)", dict(self.rec.get("task", {}), fns=self.fns), self.aliases)
             rows, _t = sub.block(inner[k + 1:-1].strip(), "")
             self.nq += sub.nq
             self.nctl += sub.nctl
             self.tasks.append(rows)
             self.tasks += sub.tasks
             return [(nm, "InTask") for (nm, _d) in rows], None
-        # tokio::spawn(f(args)): the ARGUMENTS are evaluated here, on the loop's own task
+        # spawn(f(args)): the ARGUMENTS are evaluated here, on the loop's own task
         rows = []
-        for (rx, base) in self.points:
+        for p in self.points:
             while True:
-                mm = re.search(r"(?:%s)\?" % rx, inner)
-                if not mm:
+                hit = None
+                for mm in re.finditer((r"[\w\.]+" if p["method"] else r"(?<![\w\.:])") + p["key"] + r"\(", inner):
+                    e = _ls_close_of(inner, mm.end() - 1, self.what)
+                    tail = ".await?" if p["awaited"] else "?"
+                    if inner.startswith(tail, e + 1) and self.point(inner[mm.start():e + 1 + len(tail) - 1], sfx):
+                        hit = (mm.start(), e + 1 + len(tail))
+                        break
+                if not hit:
                     break
-                rows.append((self.name(base, sfx), "Propagate ByQuestion"))
+                rows.append((self.name(p["name"], sfx), "Propagate ByQuestion"))
                 self.nq += 1
-                inner = inner[:mm.start()] + "<" + base + ">" + inner[mm.end():]
-        hits = [nm for (rx, nm) in self.rec.get("calls", []) if re.fullmatch(rx, inner)]
-        if len(hits) != 1:
+                inner = inner[:hit[0]] + "ARG" + inner[hit[1]:]
+        hits = []
+        for (rx, nm) in self.rec.get("calls", []):
+            mm = re.match(rx + r"\(", inner)
+            if mm and _ls_close_of(inner, mm.end() - 1, self.what) == len(inner) - 1:
+                hits.append(nm)
+        if len(hits) != 1 or not _ls_inert(inner):
             self.fail("unrecognised spawned call %r" % inner[:120])
         self.tasks.append([(self.name(hits[0], ""), "Handled Converted")])
         return rows + [(self.name(hits[0], ""), "InTask")], None
+
+    def ctx_suffix(self, table, text, width):
+        for row in self.rec.get(table, []):
+            if re.search(row[0], text):
+                return row[1:]
+        return ("",) * width
 
     def stmt_match(self, st, sfx):
         m = re.match(r"(?:let [^=]+ = |[\w\.]+ = )?match ", st)
         scrut, body, rest = _ls_braced(st, m.end(), self.what)
         if rest not in ("", ";", ","):
             self.fail("text after a match: %r" % rest[:60])
-        arms = _arms(body, self.what)
+        arms = _ls_arms(body, self.what)
         p = self.point(scrut, sfx)
         if p:
             bad = [(pat, ex) for (pat, ex) in arms if re.fullmatch(r"Err\(.*\)|None|_", pat)]
@@ -1540,18 +1876,14 @@ class _LoopWalk:
             rows = [(p[1], self.fail_arm(bad[0][1], sfx))]
             s2 = sfx + self.rec.get("arm_suffix", {}).get(p[0], "")
             for (pat, ex) in good:
-                rows += self.quiet(_block_inner(ex), s2, "a success arm of `match %s`" % scrut)
+                rows += self.quiet(_ls_block_inner(ex), s2, "a success arm of `match %s`" % scrut)
             return rows, None
-        for (rx, pats) in self.rec.get("plain_match", []):
-            if re.fullmatch(rx, scrut):
-                rows = []
-                for (pat, ex) in arms:
-                    s = [s_ for (prx, s_) in pats if re.fullmatch(prx, pat)]
-                    if len(s) != 1:
-                        self.fail("unrecognised arm pattern %r of `match %s`" % (pat, scrut))
-                    rows += self.quiet(_block_inner(ex), sfx + s[0], "an arm of `match %s`" % scrut)
-                return rows, None
-        self.fail("unrecognised match scrutinee %r" % scrut[:120])
+        self.plain(scrut, "match scrutinee")
+        rows = []
+        for (pat, ex) in arms:
+            self.plain(pat, "arm pattern")
+            rows += self.quiet(_ls_block_inner(ex), sfx + self.ctx_suffix("arm_ctx", pat, 1)[0], "an arm of `match %s`" % scrut)
+        return rows, None
 
     def stmt_if(self, st, sfx):
         cond, then_b, rest = _ls_braced(st, 3, self.what)
@@ -1560,7 +1892,7 @@ class _LoopWalk:
             else_b = None
         elif rest.startswith("else"):
             r = rest[4:].strip()
-            if r.startswith("{") and _close_of(r, 0, self.what) == len(r) - 1:
+            if r.startswith("{") and _ls_close_of(r, 0, self.what) == len(r) - 1:
                 else_b = r[1:-1].strip()
             elif r.startswith("if "):
                 else_b = r
@@ -1569,7 +1901,7 @@ class _LoopWalk:
         else:
             self.fail("text after an if block: %r" % rest[:60])
         go = lambda b, s, w: self.quiet(b, s, w) if b is not None else []
-        m = re.fullmatch(r"let Err\(\w+\) = (.+)", cond)
+        m = re.fullmatch(r"let Err\(.*\) = (.+)", cond)
         p = self.point(m.group(1), sfx) if m else None
         if p:
             return [(p[1], self.fail_arm(then_b, sfx))] + go(else_b, sfx, "the else of `if %s`" % cond), None
@@ -1582,56 +1914,59 @@ class _LoopWalk:
         m = re.fullmatch(r"(.+)\.is_ok\(\)", cond)
         p = self.point(m.group(1), sfx) if m else None
         if p:
-            return [(p[1], "Handled Converted")] + go(then_b, sfx, "if") + go(else_b, sfx, "else"), None
+            s2 = sfx + self.rec.get("arm_suffix", {}).get(p[0], "")
+            disp = self.fail_arm(else_b, sfx) if else_b is not None else "Handled Converted"
+            return [(p[1], disp)] + go(then_b, s2, "the success block of `if %s`" % cond), None
         m = re.fullmatch(r"(.+)\.is_err\(\)", cond)
         p = self.point(m.group(1), sfx) if m else None
         if p:
             return [(p[1], self.fail_arm(then_b, sfx))] + go(else_b, sfx, "else"), None
         for (rx, base) in self.rec.get("check_if", []):
-            if re.fullmatch(rx, cond):
+            if re.search(rx, cond) and _ls_inert(cond):
                 return [(self.name(base, sfx), self.fail_arm(then_b, sfx))] + go(else_b, sfx, "else"), None
-        for (rx, s_then, s_else) in self.rec.get("plain_if", []):
-            if re.fullmatch(rx, cond):
-                return go(then_b, sfx + s_then, "the then-block of `if %s`" % cond) + go(else_b, sfx + s_else, "the else-block of `if %s`" % cond), None
-        self.fail("unrecognised condition %r" % cond[:120])
+        self.plain(cond, "condition")
+        s_then, s_else = self.ctx_suffix("cond_ctx", cond, 2)
+        return go(then_b, sfx + s_then, "the then-block of `if %s`" % cond) + go(else_b, sfx + s_else, "the else-block of `if %s`" % cond), None
 
     def stmt_select(self, st, sfx):
         if self.select is not None:
-            self.fail("more than one tokio::select!")
+            self.fail("more than one select!")
         _h, body, rest = _ls_braced(st, 0, self.what)
         if rest not in ("", ";"):
-            self.fail("text after tokio::select!: %r" % rest[:60])
+            self.fail("text after select!: %r" % rest[:60])
         rows, sel = [], []
-        for (head, expr) in _arms(body, self.what):
+        for (head, expr) in _ls_arms(body, self.what):
             if head == "else":
-                r, term = self.block(_block_inner(expr), sfx)
+                r, term = self.block(_ls_block_inner(expr), sfx)
                 if r or term not in ("break", "return", "panic"):
-                    self.fail("unrecognised `else` branch of tokio::select!: %r" % expr[:80])
+                    self.fail("unrecognised `else` branch of select!: %r" % expr[:80])
                 self.select_else = {"break": "Some ByBreak", "return": "Some ByReturn", "panic": "Some ByPanic"}[term]
                 continue
-            k = _first_open(head, 0, "=", self.what)
+            k = _ls_first_open(head, 0, "=", self.what)
             pat, fut = head[:k].strip(), head[k + 1:].strip()
             nm = [n_ for (rx, n_) in self.rec.get("select", []) if re.fullmatch(rx, fut)]
             if len(nm) != 1:
-                self.fail("unrecognised tokio::select! future %r" % fut[:100])
+                self.fail("unrecognised select! future %r" % fut[:100])
             nm = nm[0]
             alias = None
             if re.fullmatch(r"_|[a-z_]\w*", pat):
                 refutable = False
                 if pat != "_":
                     alias = pat
-                    self.points.append((re.escape(pat), nm))
+                    self.aliases[alias] = {"base": nm, "used": False, "kind": "select", "sfx": sfx}
             elif re.fullmatch(r"(?:Some|Ok)\(.*\)", pat):
                 refutable = True
                 rows.append((self.name(nm, sfx), "Parked"))
             else:
-                self.fail("unrecognised tokio::select! pattern %r" % pat[:80])
+                self.fail("unrecognised select! pattern %r" % pat[:80])
             sel.append((self.name(nm, sfx), refutable))
-            r = self.quiet(_block_inner(expr), sfx, "the tokio::select! branch of %s" % fut)
+            self.branch = nm
+            r = self.quiet(_ls_block_inner(expr), sfx, "the select! branch of %s" % fut)
+            self.branch = None
             if alias is not None:
-                if not any(n_ == self.name(nm, sfx) for (n_, _d) in r):
-                    self.fail("the value `%s` of the tokio::select! branch %s is never examined" % (alias, fut))
-                self.points = [(rx, n_) for (rx, n_) in self.points if rx != re.escape(alias)]
+                if not self.aliases[alias]["used"]:
+                    self.fail("the value `%s` of the select! branch %s is never examined" % (alias, fut))
+                del self.aliases[alias]
             rows += r
         if self.select_else == "absent":
             self.select_else = "None"
@@ -1639,13 +1974,16 @@ class _LoopWalk:
         return rows, None
 
     # ---- entry ----
-    def loop(self, head, body):
-        rows = self.header(head, "")
-        r, _t = self.block(body, "")
-        flat = _ls_no_literals(head + " { " + body + " }")
+    def check_counts(self, text):
+        flat = _ls_no_literals(text)
         nq, nctl = flat.count("?"), len(re.findall(r"\b(?:break|continue|return)\b", flat))
         if nq != self.nq or nctl != self.nctl:
             self.fail("the text has %d `?` and %d break/continue/return, the recognisers account for %d and %d" % (nq, nctl, self.nq, self.nctl))
+
+    def loop(self, head, body):
+        rows = self.header(head, "")
+        r, _t = self.block(body, "")
+        self.check_counts(head + " { " + body + " }")
         return rows + r
 
 
@@ -1670,42 +2008,47 @@ def gen_loop_shapes():
         L.append("Definition %s : bool := %s.  (* %s *)" % (name, "true" if v else "false", origin))
 
     def walk(what, rec, head, body):
-        w = _LoopWalk(what, rec)
+        w = _LoopWalk(what, dict(rec, fns=fns))
         return w, w.loop(head, body)
 
+    def param(hdr, ty, what):
+        """the name of the parameter whose type is the generic parameter `ty` (the closure that is called in the loop)"""
+        m = re.search(r"\b(\w+): %s\b" % ty, hdr)
+        if not m:
+            raise AnchorMissing("%s: no parameter of type %s" % (what, ty))
+        return re.escape(m.group(1))
+
+    P = _ls_P
+    ONE = r"[^,()]+"
     # ---------------- server: octo-squirrel-server/src/server.rs ----------------
     f = "octo-squirrel-server/src/server.rs"
     s = src(f)
-    tcp_task = {"points": [(r"tls_acceptor\.accept\(\w+\)\.await", "TlsHandshake"),
-                           (r"template::tcp::accept_websocket_then_replay\(\w+, \w+\)\.await", "WsThenRelay"),
-                           (r"template::tcp::relay\(\w+, \w+\)\.await", "Relay")],
-                "plain_if": [(r"use_ws|ws_config\.is_some\(\)", "", "")]}
-    tcp_rec = {"points": [(r"listener\.accept\(\)\.await", "Accept"), (r"new_codec\(context\.as_ref\(\)\)", "NewCodec")] + tcp_task["points"],
-               "calls": [(r"template::tcp::accept_websocket_then_replay\(\w+, (?:\w+|<NewCodec>)\)", "WsThenRelay"),
-                         (r"template::tcp::relay\(\w+, (?:\w+|<NewCodec>)\)", "Relay")],
-               "plain_if": tcp_task["plain_if"], "task": tcp_task}
-    _, body = _item(s, r"\nasync fn startup_tcp<", f + ": startup_tcp")
-    body = _ls_norm(body)
-    st = _ls_stmt_with(body, r"match \(&config\.ssl, &config\.ws\) \{", f + ": startup_tcp")
-    _h, mbody, _r = _ls_braced(st, 0, f + ": startup_tcp")
-    arms = _arms(mbody, f + ": startup_tcp")
+    fns = _ls_file_fns(s)
+    hdr, body = _ls_item(s, r"\nasync fn startup_tcp<", f + ": startup_tcp")
+    tcp_task = {"points": [P(r"\.accept", "TlsHandshake", args=ONE),           # TlsAcceptor::accept(stream); TcpListener::accept() takes none
+                           P(r"template::tcp::accept_websocket_then_replay", "WsThenRelay"), P(r"template::tcp::relay", "Relay")]}
+    tcp_rec = {"points": [P(r"\.accept", "Accept", args=r""), P(param(hdr, "NewCodec", f + ": startup_tcp"), "NewCodec", awaited=False)] + tcp_task["points"],
+               "calls": [(r"template::tcp::accept_websocket_then_replay", "WsThenRelay"), (r"template::tcp::relay", "Relay")],
+               "task": tcp_task}
+    st = [st_ for st_ in _ls_stmts(body, f + ": startup_tcp") if re.match(r"match \(&\w+\.ssl, &\w+\.ws\) \{", st_)]
+    if len(st) != 1:
+        raise AnchorMissing(f + ": startup_tcp: expected one `match (&config.ssl, &config.ws) {`")
+    _h, mbody, _r = _ls_braced(st[0], 0, f + ": startup_tcp")
+    arms = _ls_arms(mbody, f + ": startup_tcp")
     if len(arms) != 2 or not re.fullmatch(r"\(None, \w+\)", arms[0][0]) or not re.fullmatch(r"\(Some\(\w+\), \w+\)", arms[1][0]):
         raise AnchorMissing(f + ": startup_tcp must have exactly the arms (None, ws) and (Some(ssl_config), ws); found %r" % [a for a, _ in arms])
     for nm, (_pat, expr), tag in [("server_tcp_plain", arms[0], "(None, ws)"), ("server_tcp_tls", arms[1], "(Some(ssl), ws)")]:
-        head, lbody = _ls_single_loop(_block_inner(expr), f + ": startup_tcp %s arm" % tag)
+        head, lbody = _ls_the_loop(_ls_block_inner(expr), f + ": startup_tcp %s arm" % tag)
         w, rows = walk(f + ": startup_tcp %s arm" % tag, tcp_rec, head, lbody)
         emit_rows(nm + "_points", rows, f + " startup_tcp %s arm: the accept loop" % tag)
         emit_rows(nm + "_task_points", [r_ for t_ in w.tasks for r_ in t_], f + " startup_tcp %s arm: inside the spawned task(s), relative to the task" % tag)
 
-    quic_task = {"points": [(r"incoming\.await", "QuicHandshake"), (r"\w+\.accept_bi\(\)\.await", "QuicAcceptBi"),
-                            (r"template::quic::relay\(QuicStream::new\(\w+, \w+\), \w+\)\.await", "QuicRelay")],
-                 "pure": [r"Ok::<\(\), anyhow::Error>\(\(\)\)"]}
-    quic_rec = {"points": [(r"endpoint\.accept\(\)\.await", "EndpointAccept"), (r"new_codec\(context\.as_ref\(\)\)", "NewCodec")] + quic_task["points"],
+    hdr, body = _ls_item(s, r"\nasync fn startup_quic<", f + ": startup_quic")
+    quic_task = {"points": [P(r"\.accept_bi", "QuicAcceptBi", args=r""), P(r"template::quic::relay", "QuicRelay")]}
+    quic_rec = {"points": [P(r"\.accept", "EndpointAccept", args=r""), P(param(hdr, "NewCodec", f + ": startup_quic"), "NewCodec", awaited=False)] + quic_task["points"],
+                "header_item": [("{item}.await", "QuicHandshake")],     # awaiting the `Incoming` the loop header yields IS the handshake
                 "task": quic_task}
-    _, body = _item(s, r"\nasync fn startup_quic<", f + ": startup_quic")
-    st = _ls_stmt_with(_ls_norm(body), r"if let Some\(\w+\) = &config\.quic \{", f + ": startup_quic")
-    _c, then_b, _r = _ls_braced(st, 3, f + ": startup_quic")
-    head, lbody = _ls_single_loop(then_b, f + ": startup_quic")
+    head, lbody = _ls_the_loop(body, f + ": startup_quic")
     w, rows = walk(f + ": startup_quic", quic_rec, head, lbody)
     emit_rows("server_quic_points", rows, f + " startup_quic: the accept loop")
     emit_rows("server_quic_task_points", [r_ for t_ in w.tasks for r_ in t_], f + " startup_quic: inside the spawned task, relative to the task")
@@ -1713,36 +2056,31 @@ def gen_loop_shapes():
     # ---------------- server: octo-squirrel-server/src/server/shadowsocks.rs ----------------
     f = "octo-squirrel-server/src/server/shadowsocks.rs"
     s = src(f)
+    fns = _ls_file_fns(s)
+    SEL = [(r"[\w\.]+\.tick\(\)", "Tick")]
     udp_rec = {
-        "select": [(r"cleanup_timer\.tick\(\)", "Tick"), (r"rx\.recv\(\)", "RecvChannel"), (r"inbound\.recv_from\(&mut buf\)", "RecvClient")],
-        "points": [(r"SessionCodec::encode\(&codec, .*, &mut \w+\)", "EncodeReply"), (r"inbound\.send_to\(&\w+, \w+\)\.await", "SendReply"),
-                   (r"SessionCodec::<N>::decode\(&codec, &mut \w+\)", "DecodeClient"), (r"\w+\.try_send\(.*\)\.await", "AssocSend"),
-                   (r"UdpAssociateContext::create\(.*\)\.await", "AssocCreate")],
-        "arm_suffix": {"AssocCreate": "New"},
-        "plain_match": [(r"net_map\.get_mut\(&\w+\)", [(r"Some\(\w+\)", ""), (r"None", "")])],
-        "plain_if": [(r"let Some\(\w+\) = undelivered", "", "")],
-        "pure": [r"net_map\.(?:iter|get|remove|insert)\(.*\);", r"let mut \w+ = BytesMut::new\(\);", r"let mut \w+ = BytesMut::from\(&buf\[\.\.len\]\);",
-                 r"let \w+ = associate_key\(.*\);", r"let \w+ = \(\w+, \w+, \w+\);"]}
-    _, body = _item(s, r"\nasync fn startup_udp<", f + ": startup_udp")
-    st = _ls_stmt_with(_ls_norm(body), r"if config\.mode\.enable_udp\(\) \{", f + ": startup_udp")
-    _c, then_b, _r = _ls_braced(st, 3, f + ": startup_udp")
-    head, lbody = _ls_single_loop(then_b, f + ": startup_udp")
+        "select": SEL + [(r"[\w\.]+\.recv\(\)", "RecvChannel"), (r"[\w\.]+\.recv_from\(.*\)", "RecvClient")],
+        "points": [P(r"SessionCodec(?:::<\w+>)?::encode", "EncodeReply", awaited=False), P(r"\.send_to", "SendReply"),
+                   P(r"SessionCodec(?:::<\w+>)?::decode", "DecodeClient", awaited=False), P(r"\.try_send", "AssocSend"),
+                   P(r"\w+::create", "AssocCreate")],
+        "arm_suffix": {"AssocCreate": "New"}}
+    _, body = _ls_item(s, r"\nasync fn startup_udp<", f + ": startup_udp")
+    head, lbody = _ls_the_loop(body, f + ": startup_udp")
     w, rows = walk(f + ": startup_udp", udp_rec, head, lbody)
     emit_rows("server_udp_points", rows, f + " startup_udp: the datagram loop")
     emit_select("server_udp", w, f + " startup_udp")
 
-    _, impl_body = _item(s, r"\nimpl<const N: usize> UdpAssociateContext<N> \{", f + ": impl UdpAssociateContext")
-    _, cbody = _item(impl_body, r"async fn create\(", f + ": UdpAssociateContext::create")
-    spawned = bool(re.search(r"let task = tokio::spawn\(async move \{ \w+\.relay\(\w+\)\.await;? \}\);", _ls_norm(cbody)))
+    _, impl_body = _ls_item(s, r"\nimpl<const N: usize> UdpAssociateContext<N> \{", f + ": impl UdpAssociateContext")
+    _, cbody = _ls_item(impl_body, r"async fn create\(", f + ": UdpAssociateContext::create")
+    spawned = bool(re.search(r"(?:\w+::)*spawn\(async move \{ \w+\.relay\(\w+\)\.await;? \}\)", cbody))
     emit_bool("server_assoc_relay_spawned", spawned, f + " UdpAssociateContext::create: `let task = tokio::spawn(async move { assoc.relay(receiver).await });`")
     assoc_rec = {
-        "select": [(r"self\.outbound\.recv_from\(&mut buf\)", "PeerRecv"), (r"receiver\.recv\(\)", "ClientChannelRecv")],
-        "points": [(r"self\.server_packet_id\.checked_add\(1\)", "PacketIdNext"), (r"self\.inbound\.send\(.*\)\.await", "ReplyChannelSend"),
-                   (r"\w+\.to_socket_addr\(\)", "Resolve"), (r"self\.outbound\.send_to\(&\w+, \w+\)\.await", "SendPeer")],
-        "check_if": [(r"!self\.validate_packet_id\(session\.packet_id\)", "ReplayCheck")],
-        "pure": [r"let \w+ = BytesMut::from\(&buf\[\.\.len\]\);", r"let \w+ = Session::new\(.*\);"]}
-    _, body = _item(impl_body, r"async fn relay\(", f + ": UdpAssociateContext::relay")
-    head, lbody = _ls_single_loop(_ls_norm(body), f + ": UdpAssociateContext::relay")
+        "select": [(r"[\w\.]+\.recv_from\(.*\)", "PeerRecv"), (r"[\w\.]+\.recv\(\)", "ClientChannelRecv")],
+        "points": [P(r"\.checked_add", "PacketIdNext", awaited=False), P(r"\.send", "ReplyChannelSend"),
+                   P(r"\.to_socket_addr", "Resolve", args=r"", awaited=False), P(r"\.send_to", "SendPeer")],
+        "check_if": [(r"^!\s*[\w\.]+\.validate_packet_id\(", "ReplayCheck")]}
+    _, body = _ls_item(impl_body, r"async fn relay\(", f + ": UdpAssociateContext::relay")
+    head, lbody = _ls_the_loop(body, f + ": UdpAssociateContext::relay")
     w, rows = walk(f + ": UdpAssociateContext::relay", assoc_rec, head, lbody)
     emit_rows("server_assoc_points", rows, f + " UdpAssociateContext::relay: the loop of one association's task (dispositions relative to THAT loop)")
     emit_select("server_assoc", w, f + " UdpAssociateContext::relay")
@@ -1750,44 +2088,35 @@ def gen_loop_shapes():
     # ---------------- client: octo-squirrel-client/src/client/template.rs ----------------
     f = "octo-squirrel-client/src/client/template.rs"
     s = src(f)
-    ctcp_rec = {"points": [(r"listener\.accept\(\)\.await", "Accept")],
-                "task": {"points": [(r"handshake", "LocalHandshake"), (r"try_transfer_tcp\(.*\)\.await", "TryTransfer")],
-                         "pure": [r"let handshake = handshake::get_request_addr\(&mut \w+\)\.await;"]}}
-    _, body = _item(s, r"\npub async fn transfer_tcp<", f + ": transfer_tcp")
-    st = _ls_stmt_with(_ls_norm(body), r"match context \{", f + ": transfer_tcp")
-    _h, mbody, _r = _ls_braced(st, 0, f + ": transfer_tcp")
-    ok_arm = [ex for (pat, ex) in _arms(mbody, f + ": transfer_tcp") if re.fullmatch(r"Ok\(\w+\)", pat)]
-    if len(ok_arm) != 1:
-        raise AnchorMissing(f + ": transfer_tcp: `match context { Ok(context) => { loop .. } .. }`")
-    head, lbody = _ls_single_loop(_block_inner(ok_arm[0]), f + ": transfer_tcp")
+    fns = _ls_file_fns(s)
+    ctcp_rec = {"points": [P(r"\.accept", "Accept", args=r"")],
+                "task": {"points": [P(r"handshake::get_request_addr", "LocalHandshake"), P(r"try_transfer_tcp", "TryTransfer")]}}
+    _, body = _ls_item(s, r"\npub async fn transfer_tcp<", f + ": transfer_tcp")
+    head, lbody = _ls_the_loop(body, f + ": transfer_tcp")
     w, rows = walk(f + ": transfer_tcp", ctcp_rec, head, lbody)
     emit_rows("client_tcp_points", rows, f + " transfer_tcp: the accept loop")
     emit_rows("client_tcp_task_points", [r_ for t_ in w.tasks for r_ in t_], f + " transfer_tcp: inside the spawned task, relative to the task")
 
-    reply_task = {"points": [(r"server_client\.next\(\)\.await", "ServerRecv"), (r"next", "ServerDecode"), (r"client_local\.send\(.*\)\.await", "LocalChannelSend")],
+    reply_task = {"points": [P(r"\.next", "ServerRecv", args=r""), P(r"\.send", "LocalChannelSend")],
+                  "header_item": [("{item}", "ServerDecode")],          # the item the reply stream yields is the decode result
                   "loops": True}
+    hdr, body = _ls_item(s, r"\npub async fn transfer_udp<", f + ": transfer_udp")
     cudp_rec = {
-        "select": [(r"cleanup_timer\.tick\(\)", "Tick"), (r"client_local_rx\.recv\(\)", "RecvReplyChannel"), (r"local_client\.next\(\)", "RecvLocal")],
-        "points": [(r"client_local\.send\(\w+\)\.await", "SendLocalReply"), (r"new_out\(&\w+, &\w+\)\.await", "NewOut"),
-                   (r"new_binding\(.*\)\.await", "NewBinding"), (r"\w+\.sink\.send\(.*\)\.await", "SendOutbound")],
-        "plain_match": [(r"client_server_cache\.entry\(\w+\)", [(r"Entry::Vacant\(\w+\)", "Vacant"), (r"Entry::Occupied\(\w+\)", "")])],
-        "plain_if": [(r"\w+\.relay_task\.is_finished\(\)", "Retry", "")],
-        "pure": [r"client_server_cache\.(?:iter|get)\(.*\);", r"let \w+ = new_key\(\w+, &\w+\);", r"let \w+ = \w+\.into_mut\(\);",
-                 r"\w+\.insert\(Binding ?\{ ?sink, relay_task ?\}\);", r"\w+\.sink = \w+;", r"\w+\.relay_task = \w+;"]}
-    _, body = _item(s, r"\npub async fn transfer_udp<", f + ": transfer_udp")
-    head, lbody = _ls_single_loop(_ls_norm(body), f + ": transfer_udp")
+        "select": SEL + [(r"[\w\.]+\.recv\(\)", "RecvReplyChannel"), (r"[\w\.]+\.next\(\)", "RecvLocal")],
+        "points": [P(r"\.send", "SendLocalReply", branch="RecvReplyChannel"), P(r"\.send", "SendOutbound", branch="RecvLocal"),
+                   P(param(hdr, "NewOut", f + ": transfer_udp"), "NewOut"), P(r"new_binding", "NewBinding")],
+        "arm_ctx": [(r"\bEntry::Vacant\b", "Vacant"), (r"\bEntry::Occupied\b", "")],
+        "cond_ctx": [(r"\.is_finished\(\)$", "Retry", "")]}
+    head, lbody = _ls_the_loop(body, f + ": transfer_udp")
     w, rows = walk(f + ": transfer_udp", cudp_rec, head, lbody)
     emit_rows("client_udp_points", rows, f + " transfer_udp: the datagram loop")
     emit_select("client_udp", w, f + " transfer_udp")
 
-    bind_rec = {"points": [(r"client_server\.send\(.*\)\.await", "FirstSend")], "task": reply_task,
-                "pure": [r"let \(\(\w+, \w+\), \w+\) = msg;", r"let \(mut client_server, mut server_client\) = out\.split\(\);", r"Ok\(\(client_server, relay_task\)\)"]}
-    _, body = _item(s, r"\nasync fn new_binding<", f + ": new_binding")
-    w = _LoopWalk(f + ": new_binding", bind_rec)
-    rows, _t = w.block(_ls_norm(body), "")
-    flat = _ls_no_literals(_ls_norm(body))
-    if flat.count("?") != w.nq or len(re.findall(r"\b(?:break|continue|return)\b", flat)) != w.nctl:
-        w.fail("exits the recognisers do not account for")
+    bind_rec = {"points": [P(r"\.send", "FirstSend")], "task": reply_task}
+    _, body = _ls_item(s, r"\nasync fn new_binding<", f + ": new_binding")
+    w = _LoopWalk(f + ": new_binding", dict(bind_rec, fns=fns))
+    rows, _t = w.block(body, "")
+    w.check_counts(body)
     if len(w.tasks) != 1:
         w.fail("expected exactly one spawned block (the reply task)")
     emit_rows("client_binding_points", rows, f + " new_binding (helper called on the datagram loop's task; Propagate = out of the helper, to its call site)")
@@ -1798,6 +2127,7 @@ def gen_loop_shapes():
               "   around it does when it fails.  The vocabulary below is fixed text of the translator; the tables are extracted. *)\n"
               "From Coq Require Import List.\nImport ListNotations.\n\n" + _LS_VOCAB + "\n")
     return header + "\n".join(L) + "\n", facts
+
 
 def write_if_changed(path, content):
     try:
